@@ -550,7 +550,7 @@ var fixedSnippets = func() []snippet {
 		strings.Repeat("9", 400), "1."+strings.Repeat("0", 400), "0x"+strings.Repeat("f", 300), strings.Repeat("0", 500), "1e"+strings.Repeat("9", 50))
 	add("escape", `"\a\b\f\n\r\t\v\\\e"`, `"\x"`, `"\x4"`, `"\x41"`, `"\xzz"`, `"\u"`, `"\u12"`, `"é"`, `"\ud800"`, `"\U"`, `"\U0001F389"`, `"\U00110000"`, `"\UFFFFFFFF"`, `"\0"`, `"\00"`, `"\000"`, `"\777"`, `"\400"`, `"\8"`, `"\q"`, `"\'"`, `'\"'`, `'\''`, `"\`+"\n"+`"`, `'\{'`, `'\}'`, `'{"\""}'`, `'{x}\'`, `"\x00"`, `"a`+"\x00"+`b"`, "`\\`", "`\\``",
 		`'{1}'`, `'{1 +}'`, `'{}'`, `'{;}'`, `'{x;y}'`, `'{x`+"\n"+`}'`, `'{"{"}'`, `'{ {"a": 1} }'`, `'{ {1} }'`, `'{ func() { return 1 }() }'`, `'{ '{ '{1}' }' }'`, `'{x} {x} {x} {x} {x} {x} {x} {x}'`, `'{undefined_name}'`, `'{1/0}'`, `'{ return }'`, `'{ x := 1 }'`, `'{ if }'`, `'{`+"`a`"+`}'`)
-	add("linebreak", "{\"a\":\n 1}", "{\"a\":\r 1}", "{\"a\"\n: 1}", "{\n\"a\"\n:\n1\n}", "{\"a\": 1,\n\"b\":\n2}", "{ if\n; ,}", "{1\n}", "{1,\n2}", "{1\n,2}", "{\n1,\n}", "[1,\n2]", "[1\n,2]", "[\n]", "{\n}", "(\n1\n)", "(1\n)", "f(\n1\n)", "f(a,\n)", "f(a\n,b)",
+	add("linebreak", "f(1, (\n2))", "[1, (\n2)]", "{(\n1)}", "{\"a\": (\n1)}", "{1, (\n2)}", "x := (\n1)", "(\n1)", "((\n))", "{\"a\":\n 1}", "{\"a\":\r 1}", "{\"a\"\n: 1}", "{\n\"a\"\n:\n1\n}", "{\"a\": 1,\n\"b\":\n2}", "{ if\n; ,}", "{1\n}", "{1,\n2}", "{1\n,2}", "{\n1,\n}", "[1,\n2]", "[1\n,2]", "[\n]", "{\n}", "(\n1\n)", "(1\n)", "f(\n1\n)", "f(a,\n)", "f(a\n,b)",
 		"x :=\n1", "x\n:= 1", "x =\n1", "x +=\n1", "x, \ny := [1, 2]", "x,\ny = 1, 2", "const\nx = 1", "const x\n= 1", "const x =\n1", "var\nx = 1", "var x =\n1",
 		"if x\n{ }", "if\nx { }", "if x {\n}\nelse { }", "if x { } else\n{ }", "if x { } else\nif y { }", "if x { } else if\ny { }", "if x {} else if", "if x {} else if\n",
 		"func\n() {}", "func(\na\n) {}", "func(a,\nb=\n1) {}", "func()\n{}", "func f\n() {}", "func() {\nreturn\n}", "func() { return\n1 }()",
